@@ -125,6 +125,23 @@ def run(ctx):
                                                   {**desc, "with_consistent_cache": res[name][0], "with_stale_cache": float(np.real(eg))}))
                         except Exception as ex:
                             spec_fail.append((name, "entry point is callable on a state with a stale overlap cache", {**desc, "error": repr(ex)[:300]}))
+                # the two ways the driver calls the AD entry points both mean "unperturbed Hamiltonian": forward mode passes coupling 0 with
+                # the real observable, reverse mode coupling 1 with a zero observable; the primal energy must be the same in both
+                if nb == 1:
+                    O1 = systems.sym(systems.dyadic(random.Random(seed + 7), (4, 4), 3))
+                    obs1 = jnp.array([O1, O1])
+                    for name in entry_all:
+                        if name not in res or name == "propagate_phaseless":
+                            continue
+                        for how, cpl, ob in (("forward-mode call (coupling 0, non-zero observable)", 0.0, obs1), ("reverse-mode call (coupling 1, zero observable)", 1.0, None)):
+                            try:
+                                ef, _ = call(name, smp, S, coupling=cpl, obs=ob, wave_data=wdc)
+                                evals += 1
+                                if abs(float(np.real(ef)) - res[name][0]) > 1e-9 * max(1.0, abs(res[name][0])):
+                                    spec_fail.append((name, "the primal energy at zero effective perturbation does not depend on how the driver passes coupling and observable",
+                                                      {**desc, "call": how, "energy": float(np.real(ef)), "energy_zero_coupling_zero_observable": res[name][0]}))
+                            except Exception as ex:
+                                spec_fail.append((name, "entry point is callable the way the driver calls it", {**desc, "call": how, "error": repr(ex)[:300]}))
                 g_ = lambda n: res.get(n, (None, None))[0]
 
                 def same(a, b, clause, tl=tol):
